@@ -7,9 +7,12 @@ export PYTHONPATH="$wt/src"
 /venv/bin/python -c "import gbigsmiles;print('import path', gbigsmiles.__file__)" >> $out 2>&1
 git diff --stat -- src >> $out
 timeout 900 /venv/bin/python _seed/demo.py > _seed/demo_with.log 2>&1; echo "demo_with_exit=$?" >> $out
-git stash -q
+# (not `git stash`: the stash is shared by all worktrees of a repository)
+git diff -- src > _seed/.confirm.patch
+git apply -R _seed/.confirm.patch
 timeout 900 /venv/bin/python _seed/demo.py > _seed/demo_without.log 2>&1; echo "demo_without_exit=$?" >> $out
-git stash pop -q
+git apply _seed/.confirm.patch
+cmp -s <(git diff -- src) _seed/.confirm.patch && echo "change restored" >> $out
 git diff --stat -- src | tail -1 >> $out
 timeout 3000 /venv/bin/python -m pytest -q -p no:cacheprovider --timeout=900 -x -q tests 2>&1 | tail -5 >> $out
 echo "suite_done" >> $out
